@@ -319,47 +319,37 @@ def parseMembers : Nat → Bytes → VMap → Option (VMap × Bytes)
           | _ => none
       | _ => none
 
+/-- optional `,"body":"<base64>"` -/
+def bodyPart (r3 : Bytes) : Option (Bytes × Bytes) :=
+  match dropPrefix kwBody r3 with
+  | none => some ([], r3)
+  | some r4 =>
+    match parseString r4 with
+    | none => none
+    | some (b64, r5) =>
+      match b64Decode b64 with
+      | none => none
+      | some b => some (b, r5)
+
+/-- optional `,"header":{…}` -/
+def hdrPart (fuel : Nat) (r6 : Bytes) : Option (VMap × Bytes) :=
+  match dropPrefix kwHeader r6 with
+  | none => some ([], r6)
+  | some r7 =>
+    match r7 with
+    | 123 :: 125 :: r8 => some ([], r8)
+    | 123 :: r8 => parseMembers fuel r8 []
+    | _ => none
+
 /-- Decoder for lines of the shape the encoder writes (fixed member order, no white space,
 the final newline already trimmed). `none` = not of that shape (nothing is claimed). -/
 def decodeImage (line : Bytes) : Option JRec :=
-  let fuel := line.length + 1
-  match dropPrefix ([123] ++ kwMethod) line with
-  | none => none
-  | some r0 =>
-    match parseString r0 with
-    | none => none
-    | some (m, r1) =>
-      match dropPrefix kwURL r1 with
-      | none => none
-      | some r2 =>
-        match parseString r2 with
-        | none => none
-        | some (u, r3) =>
-          -- optional body
-          let bodyPart : Option (Bytes × Bytes) :=
-            match dropPrefix kwBody r3 with
-            | none => some ([], r3)
-            | some r4 =>
-              match parseString r4 with
-              | none => none
-              | some (b64, r5) =>
-                match b64Decode b64 with
-                | none => none
-                | some b => some (b, r5)
-          match bodyPart with
-          | none => none
-          | some (b, r6) =>
-            let hdrPart : Option (VMap × Bytes) :=
-              match dropPrefix kwHeader r6 with
-              | none => some ([], r6)
-              | some r7 =>
-                match r7 with
-                | 123 :: 125 :: r8 => some ([], r8)
-                | 123 :: r8 => parseMembers fuel r8 []
-                | _ => none
-            match hdrPart with
-            | none => none
-            | some (h, r9) =>
-              if r9 = [125] then some { method := m, url := u, body := b, header := h } else none
+  (dropPrefix ([123] ++ kwMethod) line).bind fun r0 =>
+  (parseString r0).bind fun mr =>
+  (dropPrefix kwURL mr.2).bind fun r2 =>
+  (parseString r2).bind fun ur =>
+  (bodyPart ur.2).bind fun br =>
+  (hdrPart (line.length + 1) br.2).bind fun hr =>
+  if hr.2 = [125] then some { method := mr.1, url := ur.1, body := br.1, header := hr.1 } else none
 
 end Vegeta.Model.JSONTargets
